@@ -123,9 +123,9 @@ def task(item):
 
 
 GRAPHS = {'quick': {'UnitSquare': 3, 'PiSquare': 2, 'LShape': 2, 'Circle': 3, 'LShapeDriver': 1, 'UnitSquare2': 1, 'Circle2': 1,
-                    'UnitSquareT': 1, 'CircleT': 1, 'UnitSquareX': 1},  # custom non-uniform tensor grids
+                    'UnitSquareT': 1, 'CircleT': 1, 'UnitSquareX': 1, 'UnitSquareEnds': 1, 'StadiumFine': 0, 'BigCircleFine': 0, 'ThinRectFine': 0},  # custom non-uniform tensor grids, custom closed curves
           'thorough': {'UnitSquare': 3, 'PiSquare': 3, 'LShape': 2, 'Circle': 3, 'LShapeDriver': 2, 'UnitSquare2': 2, 'Circle2': 2, 'LShape2': 1,
-                       'UnitSquareT': 2, 'CircleT': 2, 'UnitSquareX': 2}}
+                       'UnitSquareT': 2, 'CircleT': 2, 'UnitSquareX': 2, 'UnitSquareEnds': 2, 'StadiumFine': 1, 'BigCircleFine': 1, 'ThinRectFine': 1}}
 
 
 def run(ctx):
